@@ -391,6 +391,17 @@ func checkRealmDiscipline(r *Reporter, p *Prog) {
 					r.Pass("realm/key-prefixed", key, pos, "iteration judged end to end")
 					continue
 				}
+				// a storing operation found by what it does (`s.m[key] = value`): the key it is handed is the
+				// concatenation realm + caller's key, realm first
+				if kv, isOp := sharedMapStoreOps(p, info)[se.Sel.Name]; isOp && kv[0] < len(c.Args) {
+					a, apt := f.Resolve(c.Args[kv[0]], pt)
+					if cc, isCC := ast.Unparen(a).(*ast.CallExpr); isCC && strings.Contains(exprKey(cc.Fun), "ConcatBytes") && len(cc.Args) == 2 && f.KeyAt(cc.Args[0], apt) == ownRealm {
+						r.Pass("realm/key-prefixed", key, pos, "key = concatenation of s.realm and the caller's key")
+						continue
+					}
+					r.Fail("realm/key-prefixed", key, pos, "the key handed to the shared map must be the concatenation of s.realm and the caller's key, realm first; found "+f.KeyAt(c.Args[kv[0]], pt))
+					continue
+				}
 				r.Fail("realm/key-prefixed", key, pos, "unknown operation on the shared map (not tabled)")
 			}
 		}
@@ -464,6 +475,194 @@ func checkRealmDiscipline(r *Reporter, p *Prog) {
 }
 
 var copyFuncs = map[string]bool{"byteutils.ConcatBytes": true, "bytes.Clone": true, "utils.CopyBytes": true, "slices.Clone": true, "byteutils.ConcatBytesToString": true, "string": true, "len": true}
+
+// sharedMapStoreOps: the methods of syncedKVMap that store one of their parameters (or a copy of it)
+// into the shared map under a key built from another parameter - found by what they do, not by name.
+// name -> (index of the key parameter, index of the value parameter).
+func sharedMapStoreOps(p *Prog, info *types.Info) map[string][2]int {
+	const mp = "kvstore/mapdb"
+	out := map[string][2]int{}
+	for _, fd := range p.Methods(mp, "syncedKVMap") {
+		if fd.Body == nil {
+			continue
+		}
+		var params []types.Object
+		for _, fl := range fd.Type.Params.List {
+			for _, nm := range fl.Names {
+				params = append(params, info.Defs[nm])
+			}
+		}
+		idxOf := func(e ast.Expr) int {
+			found := -1
+			ast.Inspect(e, func(n ast.Node) bool {
+				if id, ok := n.(*ast.Ident); ok {
+					for i, po := range params {
+						if po != nil && info.Uses[id] == po {
+							found = i
+						}
+					}
+				}
+				return true
+			})
+			return found
+		}
+		ast.Inspect(fd.Body, func(n ast.Node) bool {
+			as, ok := n.(*ast.AssignStmt)
+			if !ok || len(as.Lhs) != 1 || len(as.Rhs) != 1 {
+				return true
+			}
+			ix, ok := ast.Unparen(as.Lhs[0]).(*ast.IndexExpr)
+			if !ok || !fieldSel(info, ix.X, "m") {
+				return true
+			}
+			if k, v := idxOf(ix.Index), idxOf(as.Rhs[0]); k >= 0 && v >= 0 && k != v && len(params) == 2 {
+				out[fd.Name.Name] = [2]int{k, v}
+			}
+			return true
+		})
+	}
+	return out
+}
+
+var freshCopyFuncs = map[string]bool{"byteutils.ConcatBytes": true, "bytes.Clone": true, "utils.CopyBytes": true, "slices.Clone": true}
+
+// privateCopiesField: every value held in the map field (a map[string][]byte field of a struct of the
+// package) is a private copy for as long as it sits there: every store into an element of the field is
+// the result of a copying call, no element is written in place (`f[k][i] = `, `append(f[k][:n], ...)`,
+// `copy(f[k], ...)`). Returns "" or the first construct that breaks it.
+func privateCopiesField(p *Prog, info *types.Info, pkg string, field *types.Var) string {
+	why, nStores := "", 0
+	isField := func(e ast.Expr) bool {
+		se, ok := ast.Unparen(e).(*ast.SelectorExpr)
+		if !ok {
+			return false
+		}
+		sel := info.Selections[se]
+		return sel != nil && sel.Kind() == types.FieldVal && sel.Obj() == field
+	}
+	isElem := func(e ast.Expr) bool {
+		ix, ok := ast.Unparen(e).(*ast.IndexExpr)
+		return ok && isField(ix.X)
+	}
+	for _, fd := range p.AllFuncDecls(pkg) {
+		if fd.Body == nil || strings.HasSuffix(p.Fset.Position(fd.Pos()).Filename, "_test.go") {
+			continue
+		}
+		ast.Inspect(fd.Body, func(n ast.Node) bool {
+			switch x := n.(type) {
+			case *ast.AssignStmt:
+				for i, l := range x.Lhs {
+					if isElem(l) {
+						nStores++
+						okFresh := false
+						if i < len(x.Rhs) && len(x.Lhs) == len(x.Rhs) {
+							if c, ok := ast.Unparen(x.Rhs[i]).(*ast.CallExpr); ok && freshCopyFuncs[exprKey(c.Fun)] {
+								okFresh = true
+							}
+						}
+						if !okFresh && why == "" {
+							why = p.posStr(x.Pos()) + ": an element of " + field.Name() + " is stored without a fresh copy"
+						}
+					}
+					// f[k][i] = ... / f[k][a:b] on the left
+					if ix, ok := ast.Unparen(l).(*ast.IndexExpr); ok && isElem(ix.X) && why == "" {
+						why = p.posStr(x.Pos()) + ": an element of " + field.Name() + " is written in place"
+					}
+				}
+			case *ast.CallExpr:
+				k := rawKey(x.Fun)
+				if (k == "append" || k == "copy") && len(x.Args) > 0 {
+					hit := false
+					ast.Inspect(x.Args[0], func(m ast.Node) bool {
+						if e, ok := m.(ast.Expr); ok && isElem(e) {
+							hit = true
+						}
+						return !hit
+					})
+					if hit && why == "" {
+						why = p.posStr(x.Pos()) + ": an element of " + field.Name() + " is the destination of " + k + " (written in place)"
+					}
+				}
+			}
+			return true
+		})
+	}
+	if why == "" && nStores == 0 {
+		why = "no store into " + field.Name() + " found"
+	}
+	return why
+}
+
+// handedOverPrivately: every call of the non-copying store operation op (value parameter vi) in the
+// package passes a value that is an element of a map field holding private copies only
+// (privateCopiesField): the range value of a loop over the field, or an index of it.
+func handedOverPrivately(p *Prog, info *types.Info, pkg, op string, vi int) (string, int) {
+	n := 0
+	for _, fd := range p.AllFuncDecls(pkg) {
+		if fd.Body == nil || strings.HasSuffix(p.Fset.Position(fd.Pos()).Filename, "_test.go") {
+			continue
+		}
+		why := ""
+		var ranges []*ast.RangeStmt
+		ast.Inspect(fd.Body, func(n ast.Node) bool {
+			if rs, ok := n.(*ast.RangeStmt); ok {
+				ranges = append(ranges, rs)
+			}
+			return true
+		})
+		ast.Inspect(fd.Body, func(nd ast.Node) bool {
+			c, ok := nd.(*ast.CallExpr)
+			if !ok || why != "" {
+				return why == ""
+			}
+			se, ok := ast.Unparen(c.Fun).(*ast.SelectorExpr)
+			if !ok || se.Sel.Name != op || vi >= len(c.Args) || !strings.HasSuffix(strings.TrimPrefix(typeName(info.TypeOf(se.X)), "*"), "syncedKVMap") {
+				return true
+			}
+			n++
+			arg := ast.Unparen(c.Args[vi])
+			var fieldExpr ast.Expr
+			if ix, isIx := arg.(*ast.IndexExpr); isIx {
+				fieldExpr = ix.X
+			} else if o := objOfIdent(info, arg); o != nil {
+				for _, rs := range ranges {
+					if rs.Value != nil && objOfIdent(info, rs.Value) == o && rs.Body.Pos() <= c.Pos() && c.End() <= rs.Body.End() {
+						fieldExpr = rs.X
+					}
+				}
+			}
+			if fieldExpr == nil {
+				why = p.posStr(c.Pos()) + ": the value handed to " + op + " is not an element of a field of private copies"
+				return false
+			}
+			fse, isSel := ast.Unparen(fieldExpr).(*ast.SelectorExpr)
+			if !isSel {
+				why = p.posStr(c.Pos()) + ": the value handed to " + op + " does not come from a struct field"
+				return false
+			}
+			sel := info.Selections[fse]
+			fv, _ := func() (*types.Var, bool) {
+				if sel == nil || sel.Kind() != types.FieldVal {
+					return nil, false
+				}
+				v, ok := sel.Obj().(*types.Var)
+				return v, ok
+			}()
+			if fv == nil {
+				why = p.posStr(c.Pos()) + ": the value handed to " + op + " does not come from a struct field"
+				return false
+			}
+			if w := privateCopiesField(p, info, pkg, fv); w != "" {
+				why = w
+			}
+			return why == ""
+		})
+		if why != "" {
+			return why, n
+		}
+	}
+	return "", n
+}
 
 // checkCopyDiscipline: in syncedKVMap, []byte values read from m are used only as arguments
 // of copying functions; values stored into m are results of copying functions.
@@ -582,7 +781,21 @@ func checkCopyDiscipline(r *Reporter, p *Prog) {
 						okCopy = true
 					}
 				}
-				if !okCopy {
+				if !okCopy && i < len(as.Rhs) {
+					// ownership handed over: the operation stores its value parameter as it is, and every call
+					// of it passes an element of a field that holds private copies only
+					if ops := sharedMapStoreOps(p, info); ops[fd.Name.Name] != [2]int{} || len(ops) > 0 {
+						if kv, isOp := ops[fd.Name.Name]; isOp {
+							if why, nSites := handedOverPrivately(p, info, mp, fd.Name.Name, kv[1]); why == "" && nSites > 0 {
+								okCopy = true
+								r.Advise("copy/in-out: " + fkey + " stores its value parameter without a copy; all " + fmt.Sprint(nSites) + " call site(s) hand over a private copy held in a field that is only ever assigned fresh copies")
+							} else if why != "" {
+								bad = fmt.Sprintf("%s: the value parameter is stored without a copy and is not a privately owned copy at every call site (%s)", p.posStr(as.Pos()), why)
+							}
+						}
+					}
+				}
+				if !okCopy && bad == "" {
 					bad = fmt.Sprintf("%s: the caller's buffer is stored without a copy; later mutation of the buffer changes stored data", p.posStr(as.Pos()))
 				}
 			}
@@ -1031,6 +1244,7 @@ func checkBatchDisjoint(r *Reporter, p *Prog) {
 		// syncedKVMap.set, in the loop over deleteOperations a syncedKVMap.delete - called
 		// directly or through a helper of the view (expanded)
 		applied := map[string]string{}
+		storeOps := sharedMapStoreOps(p, info)
 		cf := newFuncCFG(p, info, fd.Body, "Commit")
 		for _, l := range cf.Loops() {
 			// what the loop ranges over, resolved through helper parameters: "range:b.setOperations"
@@ -1045,7 +1259,11 @@ func checkBatchDisjoint(r *Reporter, p *Prog) {
 					return false
 				}
 				s2, ok := ast.Unparen(c.Fun).(*ast.SelectorExpr)
-				return ok && isSharedMap(cf, info, c, s2.X) && (s2.Sel.Name == "set" || s2.Sel.Name == "delete")
+				if !ok {
+					return false
+				}
+				_, isStoreOp := storeOps[s2.Sel.Name]
+				return ok && isSharedMap(cf, info, c, s2.X) && (s2.Sel.Name == "set" || s2.Sel.Name == "delete" || isStoreOp)
 			}) {
 				if !cf.InLoopBody(l, pt) {
 					continue
@@ -1064,7 +1282,12 @@ func checkBatchDisjoint(r *Reporter, p *Prog) {
 				})
 			}
 		}
-		okSet := strings.HasPrefix(applied["setOperations"], "set(") && strings.Contains(applied["setOperations"], "key") && strings.Contains(applied["setOperations"], "value")
+		storeName := applied["setOperations"]
+		if i := strings.Index(storeName, "("); i >= 0 {
+			storeName = storeName[:i]
+		}
+		_, storeByRole := storeOps[storeName]
+		okSet := (strings.HasPrefix(applied["setOperations"], "set(") || storeByRole) && strings.Contains(applied["setOperations"], "key") && strings.Contains(applied["setOperations"], "value")
 		okDel := strings.HasPrefix(applied["deleteOperations"], "delete(") && strings.Contains(applied["deleteOperations"], "key")
 		if okSet && okDel {
 			r.Pass("batch/commit-applies", mp+".batchedMutations.Commit", p.posStr(fd.Pos()), "applies "+applied["setOperations"]+" and "+applied["deleteOperations"])
